@@ -157,7 +157,7 @@ PROPS = {
     },
     "C14": {
         "statement": "for every log accepted by the driver's panic-aware acceptor (PR.run): C14_panic_reported_iff, C14_dependents_dont_run, C14_at_most_once, C14_nothing_left_open; plus the declarative PTraces semantics (C14_panicked_iff, C14_payload_source)",
-        "engines": [trace("flat,base,batch,tl", quick=50, panics=True)],
+        "engines": [trace("flat,base,batch,tl,flat", quick=60, panics=True), trace("tlbatch", quick=30, thorough=1000, panics=True)],
         "aspects": TRACE,
         "assumptions": [RAYON, "rayon re-raises a job's panic in the caller of install after the stage's started jobs finished; unwinding drops guards; RwLock read locks do not poison"],
     },
